@@ -253,6 +253,12 @@ def run(chk, replay=None):
                     ('italy-collection', regions.italy_csep_collection_region),
                     ('california-collection', regions.california_relm_collection_region)]
     shipped.append(('global-2deg' if quick else 'global-1deg', lambda: regions.global_region(dh=2.0 if quick else 1.0)))
+    # regions derived by the library's own constructors: refined resolution and polygon sub-selection
+    from csep.models import Polygon
+    shipped.append(('nz-masked-by-polygon', lambda: regions.masked_region(
+        regions.nz_csep_region(), Polygon([(170.0, -46.0), (170.0, -41.0), (176.0, -41.0), (176.0, -46.0)]))))
+    if not quick:
+        shipped.append(('nz-dh_scale-2', lambda: regions.nz_csep_region(dh_scale=2)))
     for name, fn in shipped:
         region = guarded(fn)
         if isinstance(region, Raised):
